@@ -88,14 +88,14 @@ func newOperator(expr parser.Expr, storage *engstore.SelectorPool, opts *query.O
 		hints.Start = start
 		hints.End = end
 		filter := storage.GetSelector(start, end, opts.Step.Milliseconds(), e.LabelMatchers, hints)
-		return newShardedVectorSelector(filter, opts, e.Offset)
+		return newShardedVectorSelector(filter, opts, e.Offset, false)
 
 	case *logicalplan.FilteredSelector:
 		start, end := getTimeRangesForVectorSelector(e.VectorSelector, opts, 0)
 		hints.Start = start
 		hints.End = end
 		selector := storage.GetFilteredSelector(start, end, opts.Step.Milliseconds(), e.LabelMatchers, e.Filters, hints)
-		return newShardedVectorSelector(selector, opts, e.Offset)
+		return newShardedVectorSelector(selector, opts, e.Offset, false)
 
 	case *parser.Call:
 		hints.Func = e.Func.Name
@@ -120,6 +120,16 @@ func newOperator(expr parser.Expr, storage *engstore.SelectorPool, opts *query.O
 		call, err := function.NewFunctionCall(e.Func)
 		if err != nil {
 			return nil, err
+		}
+
+		// As in the Prometheus engine, timestamp() of a vector selector is the
+		// timestamp of the selected sample, of anything else the evaluation time.
+		if e.Func.Name == "timestamp" {
+			if next, ok, err := newTimestampSelector(e.Args[0], storage, opts, hints); err != nil {
+				return nil, err
+			} else if ok {
+				return function.NewFunctionOperator(e, function.SelectedTimestamp, []model.VectorOperator{next}, stepsBatch, opts)
+			}
 		}
 
 		if e.Func.Variadic != 0 {
@@ -273,6 +283,42 @@ func newOperator(expr parser.Expr, storage *engstore.SelectorPool, opts *query.O
 	}
 }
 
+// newTimestampSelector builds the operator for the argument of timestamp() if
+// that argument is a vector selector, possibly parenthesised or pinned with @.
+func newTimestampSelector(arg parser.Expr, storage *engstore.SelectorPool, opts *query.Options, hints storage.SelectHints) (model.VectorOperator, bool, error) {
+	for {
+		paren, ok := arg.(*parser.ParenExpr)
+		if !ok {
+			break
+		}
+		arg = paren.Expr
+	}
+	switch e := arg.(type) {
+	case *parser.StepInvariantExpr:
+		next, ok, err := newTimestampSelector(e.Expr, storage, opts.WithEndTime(opts.Start), hints)
+		if err != nil || !ok {
+			return nil, false, err
+		}
+		op, err := step_invariant.NewStepInvariantOperator(model.NewVectorPool(stepsBatch), next, e.Expr, opts, stepsBatch)
+		return op, err == nil, err
+	case *parser.VectorSelector:
+		start, end := getTimeRangesForVectorSelector(e, opts, 0)
+		hints.Start = start
+		hints.End = end
+		selector := storage.GetSelector(start, end, opts.Step.Milliseconds(), e.LabelMatchers, hints)
+		op, err := newShardedVectorSelector(selector, opts, e.Offset, true)
+		return op, err == nil, err
+	case *logicalplan.FilteredSelector:
+		start, end := getTimeRangesForVectorSelector(e.VectorSelector, opts, 0)
+		hints.Start = start
+		hints.End = end
+		selector := storage.GetFilteredSelector(start, end, opts.Step.Milliseconds(), e.LabelMatchers, e.Filters, hints)
+		op, err := newShardedVectorSelector(selector, opts, e.Offset, true)
+		return op, err == nil, err
+	}
+	return nil, false, nil
+}
+
 func unpackVectorSelector(t *parser.MatrixSelector) (*parser.VectorSelector, []*labels.Matcher, error) {
 	switch t := t.VectorSelector.(type) {
 	case *parser.VectorSelector:
@@ -284,7 +330,7 @@ func unpackVectorSelector(t *parser.MatrixSelector) (*parser.VectorSelector, []*
 	}
 }
 
-func newShardedVectorSelector(selector engstore.SeriesSelector, opts *query.Options, offset time.Duration) (model.VectorOperator, error) {
+func newShardedVectorSelector(selector engstore.SeriesSelector, opts *query.Options, offset time.Duration, selectTimestamp bool) (model.VectorOperator, error) {
 	numShards := runtime.GOMAXPROCS(0) / 2
 	if numShards < 1 {
 		numShards = 1
@@ -293,7 +339,7 @@ func newShardedVectorSelector(selector engstore.SeriesSelector, opts *query.Opti
 	for i := 0; i < numShards; i++ {
 		operator := exchange.NewConcurrent(
 			scan.NewVectorSelector(
-				model.NewVectorPool(stepsBatch), selector, opts, offset, i, numShards), 2)
+				model.NewVectorPool(stepsBatch), selector, opts, offset, i, numShards, selectTimestamp), 2)
 		operator = verifWrap(operator, nil, opts)
 		operators = append(operators, operator)
 	}
